@@ -4,7 +4,9 @@
    PART 1 (src/koreo/workflow/reconcile.py, as it is NOW, i.e. after the commits
    "fix: timed-out and crashed workflow steps no longer emit a Ready condition" and
    "fix: a step that raises an exception object with a false truth value is
-   reported as Retry" — the loops test `task.exception() is not None`):
+   reported as Retry" (the loops test `task.exception() is not None`) and "fix: an
+   exception whose __str__ raises no longer escapes reconcile_workflow"
+   (messages are built through _error_text)):
      task end states                          tend
      _reconcile_steps  151-192  loop body     classify / step_entry
      _reconcile_steps  100-218                reconcile_steps
@@ -42,15 +44,14 @@ Definition UNKNOWN_ERROR_RETRY_DELAY : Z := 60.
 (* StepResult.result : an UnwrappedOutcome (bare value or non-Ok outcome) *)
 Notation sres := (uoutcome json).
 
-(* How an asyncio task ended.  [Excepted printable]: the task raised an exception
-   object e (any object: the code tests `elif task.exception() is not None:`);
-   [printable] = str(e) returns.  The Retry message of such a step is built with
-   f"Unknown error ({task.exception()}) ...", i.e. it calls str(e) — outside any
-   try block, after the TaskGroup has exited. *)
+(* How an asyncio task ended.  [Excepted]: the task raised an exception — any
+   object: the code tests `elif task.exception() is not None:` and builds the
+   Retry message through _error_text(), which cannot raise (it falls back to
+   the class name when the object's own __str__ raises). *)
 Inductive tend :=
 | Finished (r : sres)
 | Cancelled
-| Excepted (printable : bool).
+| Excepted.
 
 (* a Python exception escaping the function being modelled *)
 Inductive wres (A : Type) := WDone (a : A) | WRaised.
@@ -60,10 +61,7 @@ Definition task_cancelled (e : tend) : bool :=
   match e with Cancelled => true | _ => false end.
 (* task.exception() is not None (None when the task returned) *)
 Definition task_has_exception (e : tend) : bool :=
-  match e with Excepted _ => true | _ => false end.
-(* building the message: str(task.exception()) *)
-Definition exception_printable (e : tend) : bool :=
-  match e with Excepted p => p | _ => true end.
+  match e with Excepted => true | _ => false end.
 (* task.result(): returns, or re-raises CancelledError / the exception *)
 Definition task_result (e : tend) : wres sres :=
   match e with Finished r => WDone r | _ => WRaised end.
@@ -78,8 +76,7 @@ Definition error_outcome : sres :=
    a TaskGroup is done when the group has exited) *)
 Definition classify (e : tend) : wres sres :=
   if task_cancelled e then WDone timeout_outcome
-  else if task_has_exception e then
-    (if exception_printable e then WDone error_outcome else WRaised)   (* the f-string raises *)
+  else if task_has_exception e then WDone error_outcome
   else task_result e.
 
 (* ---------- conditions ---------- *)
@@ -169,13 +166,13 @@ Definition sres_ok (o : sres) : bool :=
 
 Definition subworkflow_result (r : wres wresult) (state : json) : tend :=
   match r with
-  | WRaised => Excepted true           (* what propagates is the (printable) error raised by __str__ *)
+  | WRaised => Excepted                (* unreachable: see reconcile_workflow_total *)
   | WDone w => if sres_ok (wr_overall w) then Finished (UVal state) else Finished (wr_overall w)
   end.
 
 (* ---------- _reconcile_step: the dependency gate ---------- *)
 
-Inductive gate := GInvoke | GDepSkip | GCancelled | GExcepted (printable : bool).
+Inductive gate := GInvoke | GDepSkip | GCancelled | GExcepted.
 
 (* `for task in dependencies: step_result = task.result(); match step_result.result: …`
    — the first dependency that is not Ok decides; task.result() of a cancelled
@@ -185,7 +182,7 @@ Fixpoint gate_of (deps : list tend) : gate :=
   | [] => GInvoke
   | Finished r :: rest => if sres_ok r then gate_of rest else GDepSkip
   | Cancelled :: _ => GCancelled
-  | Excepted p :: _ => GExcepted p
+  | Excepted :: _ => GExcepted
   end.
 
 Record splan := {
@@ -201,7 +198,7 @@ Definition step_end (deps : list tend) (p : splan) : tend * bool :=
   | GInvoke => (p_logic p, true)
   | GDepSkip => (Finished depskip_result, false)
   | GCancelled => (Cancelled, false)
-  | GExcepted p => (Excepted p, false)
+  | GExcepted => (Excepted, false)
   end.
 
 (* a dependency index that does not name an earlier step cannot occur
@@ -404,7 +401,7 @@ Definition tend_of (r : ffres) : tend :=
   | FRes (FStop st) => Finished (UOut (stop_outcome st))
   | FRes (FValue (Some v)) => Finished (UVal v)
   | FRes (FValue None) => Finished (UVal JNull)
-  | FRes FRaise => Excepted true      (* part 2 covers exception objects whose str() works *)
+  | FRes FRaise => Excepted
   | FHung => Cancelled              (* asyncio.timeout(STEP_TIMEOUT) cancels the task *)
   | FCancelRaised => Cancelled
   end.
